@@ -38,7 +38,7 @@ IV = B.det("iv", 12)
 AADS = [None, b"ESXConfiguration", B.det("aad", 300)]
 EXTRA_VALUES = {
     1: [0, 255], 2: [0, 65535], 3: [0, 2 ** 32 - 1], 4: [0, 2 ** 64 - 1], 5: [-128, 127], 6: [-32768, 32767],
-    7: [-2 ** 31, 2 ** 31 - 1], 8: [-2 ** 63, 2 ** 63 - 1], 9: [0.0, 1.5, -2.25], 10: [0.0, 1e300, -0.5],
+    7: [-2 ** 31, 2 ** 31 - 1], 8: [-2 ** 63, 2 ** 63 - 1], 9: [0.0, 1.5, -2.25, -0.0, float("inf")], 10: [0.0, 1e300, -0.5, -0.0, float("-inf"), 5e-324],
     11: ["", "x", "ünï" * 40], 12: [b"", b"\x00", bytes(range(256))],
 }
 
@@ -108,7 +108,7 @@ def run_shard(shard, ctx):
                 run_case({"kind": "many-attrs", "n": n, "where": where}, ctx)
     elif kind == "keystore-chars":
         for ch in KS_CHARS:
-            for form in ("comment-with-old-entry", "comment-with-other-mode", "around-fields", "in-unrelated-value"):
+            for form in ("comment-with-old-entry", "comment-with-other-mode", "around-fields", "in-unrelated-value", "encoded-colon-field"):
                 run_case({"kind": "keystore-chars", "ch": ch, "form": form}, ctx)
     elif kind == "short-tag":
         # the footer declares a tag of n < 16 bytes and the stored tag differs from the true one beyond its first n bytes:
@@ -446,6 +446,10 @@ def _case_keystore_chars(case, ctx):
         text += "# previous" + ch + old_ced + "\n"
     elif form == "comment-with-other-mode":
         text += "# was" + ch + 'mode = "TPM"' + "\n"
+    elif form == "encoded-colon-field":
+        # a further field whose (percent-encoded) value quotes an older record: %3a is a colon inside the value, not a separator
+        old_fields = old_ced.split('"')[1].replace(":", "%3a").replace("=", "%3d")
+        text = text.replace(":version=1", ":version=1:note=was" + (ch if ch not in "\r\t" else "") .encode("utf-8").hex() + "%3a" + old_fields)
     elif form == "around-fields":
         if ch in ("\r", "\t", "\x0b", "\x0c", "\x1c", "\x1d", "\x1e", "\x85", "\u2028", "\u2029", "\xa0"):
             text = text.replace(":data1=", ch + ":" + ch + "data1=")
